@@ -215,7 +215,7 @@ func printDiff(a, b string, options []jd.Option) {
 		errorAndExit(err)
 	}
 	if *output == "" {
-		fmt.Print(str)
+		printOutput(str)
 	} else {
 		err := ioutil.WriteFile(*output, []byte(str), 0644)
 		if err != nil {
@@ -238,7 +238,7 @@ func printGitDiffDriver(options []jd.Option) error {
 	if err != nil {
 		return err
 	}
-	fmt.Print(str)
+	printOutput(str)
 	os.Exit(0)
 	return nil
 }
@@ -335,7 +335,7 @@ func printPatch(p, a string, options []jd.Option) {
 		out = bNode.Json(options...)
 	}
 	if *output == "" {
-		fmt.Print(out)
+		printOutput(out)
 	} else {
 		err := os.WriteFile(*output, []byte(out), 0644)
 		if err != nil {
@@ -394,7 +394,7 @@ func printTranslation(a string) {
 		errorfAndExit("unsupported translation: %q", *translate)
 	}
 	if *output == "" {
-		fmt.Print(out)
+		printOutput(out)
 	} else {
 		err := ioutil.WriteFile(*output, []byte(out), 0644)
 		if err != nil {
@@ -455,4 +455,12 @@ func runAsGitHubAction() {
 	file.WriteString(delimiter + "\n")
 	file.WriteString("exit_code=" + strconv.Itoa(cmd.ProcessState.ExitCode()) + "\n")
 	os.Exit(0)
+}
+
+// printOutput writes a result to standard output. A write that fails (disk
+// full, stdout closed) is an error like any other: exit status 2.
+func printOutput(s string) {
+	if _, err := fmt.Print(s); err != nil {
+		errorAndExit(err)
+	}
 }
